@@ -146,14 +146,14 @@ theorem addFirst_spec (s : St) (l : Hdr) (cs : List Cell) (x : Nat) (m : Mem)
   | nil =>
     have hs : l.size = 0 := r.size
     simp only [hs, if_true]
-    refine ⟨by first | trivial | rfl, by first | trivial | rfl, ⟨by simp [idsOf], ?_, by simp, rfl, rfl⟩, rfl, Nat.le_succ _, by simp [St.alloc], ?_⟩
+    refine ⟨by first | trivial | rfl, by first | trivial | rfl, ⟨by simp [idsOf], ?_, by simp, rfl, rfl⟩, rfl, Nat.le_succ _, by simp [St.alloc], ?_, (by intro _ h; simp [idsOf] at h)⟩
     · rw [SSeg_cons]; exact ⟨setData_alloc s x, trivial⟩
     · intro b _ hlt; exact setData_alloc_ne s x b (Nat.ne_of_lt hlt)
   | cons c rest =>
     have hs : l.size ≠ 0 := by rw [r.size]; simp
     have hh : l.head = some c.1 := r.head
     simp only [hs, if_false, hh]
-    refine ⟨by first | trivial | rfl, by first | trivial | rfl, ⟨?_, ?_, by simp [r.size], rfl, ?_⟩, rfl, Nat.le_succ _, ?_, ?_⟩
+    refine ⟨by first | trivial | rfl, by first | trivial | rfl, ⟨?_, ?_, by simp [r.size], rfl, ?_⟩, rfl, Nat.le_succ _, ?_, ?_, (by intro a' ha' hna'; exact absurd (by simp only [idsOf_append, idsOf_cons, idsOf_nil, List.mem_append, List.mem_cons, List.not_mem_nil, or_false, false_or] at ha' ⊢; first | exact Or.inl ha' | exact Or.inr ha' | (rcases ha' with h | h | h <;> simp [h]) | (rcases ha' with h | h <;> simp [h]) | simp [ha']) hna')⟩
     · have := r.nodup
       simp only [idsOf_cons, List.nodup_cons] at this ⊢
       exact ⟨by simpa [idsOf] using hf, this⟩
@@ -189,7 +189,7 @@ theorem addLast_spec (s : St) (l : Hdr) (cs : List Cell) (x : Nat) (m : Mem)
   · subst e
     have hs : l.size = 0 := r.size
     simp only [hs, if_true]
-    refine ⟨by first | trivial | rfl, by first | trivial | rfl, ⟨by simp [idsOf], ?_, by simp, rfl, rfl⟩, rfl, Nat.le_succ _, by simp [St.alloc], ?_⟩
+    refine ⟨by first | trivial | rfl, by first | trivial | rfl, ⟨by simp [idsOf], ?_, by simp, rfl, rfl⟩, rfl, Nat.le_succ _, by simp [St.alloc], ?_, (by intro _ h; simp [idsOf] at h)⟩
     · rw [List.nil_append, SSeg_cons]; exact ⟨setData_alloc s x, trivial⟩
     · intro b _ hlt; exact setData_alloc_ne s x b (Nat.ne_of_lt hlt)
   · subst e
@@ -200,8 +200,9 @@ theorem addLast_spec (s : St) (l : Hdr) (cs : List Cell) (x : Nat) (m : Mem)
     simp only [idsOf_append, idsOf_cons, idsOf_nil] at hnd
     rw [List.nodup_append] at hnd
     have hcp : c.1 ∉ idsOf pre := fun hm => hnd.2.2 _ hm _ List.mem_cons_self rfl
-    simp only [hs, if_false, hh, optSetNext]
-    refine ⟨by first | trivial | rfl, by first | trivial | rfl, ⟨?_, ?_, by simp [r.size], ?_, by rw [lastOr_append, lastOr_append]; rfl⟩, rfl, Nat.le_succ _, ?_, ?_⟩
+    have hlive : (s.heap c.1).isSome = true := SSeg_live r.seg c.1 (by simp)
+    simp only [hs, if_false, hh, optSetNext, live_some, hlive, Mem.check_true]
+    refine ⟨by first | trivial | rfl, by first | trivial | rfl, ⟨?_, ?_, by simp [r.size], ?_, by rw [lastOr_append, lastOr_append]; rfl⟩, rfl, Nat.le_succ _, ?_, ?_, (by intro a' ha' hna'; exact absurd (by simp only [idsOf_append, idsOf_cons, idsOf_nil, List.mem_append, List.mem_cons, List.not_mem_nil, or_false, false_or] at ha' ⊢; first | exact Or.inl ha' | exact Or.inr ha' | (rcases ha' with h | h | h <;> simp [h]) | (rcases ha' with h | h <;> simp [h]) | simp [ha']) hna')⟩
     · have := r.nodup
       simp only [idsOf_append, idsOf_cons, idsOf_nil] at this ⊢
       rw [List.nodup_append]
@@ -276,7 +277,7 @@ theorem addAt_spec (s : St) (l : Hdr) (cs : List Cell) (x i : Nat) (m : Mem)
   · subst ep
     have hh : l.head = some a.1 := r.head
     simp only [lastOr_nil, if_true, hh]
-    refine ⟨by first | trivial | rfl, by first | trivial | rfl, ⟨hnd', ?_, by simp [r.size], rfl, ?_⟩, rfl, Nat.le_succ _, hbound, ?_⟩
+    refine ⟨by first | trivial | rfl, by first | trivial | rfl, ⟨hnd', ?_, by simp [r.size], rfl, ?_⟩, rfl, Nat.le_succ _, hbound, ?_, (by intro a' ha' hna'; exact absurd (by simp only [idsOf_append, idsOf_cons, idsOf_nil, List.mem_append, List.mem_cons, List.not_mem_nil, or_false, false_or] at ha' ⊢; first | exact Or.inl ha' | exact Or.inr ha' | (rcases ha' with h | h | h <;> simp [h]) | (rcases ha' with h | h <;> simp [h]) | simp [ha']) hna')⟩
     · rw [List.nil_append, SSeg_cons]
       refine ⟨by rw [setNext, upd_eq, setData_alloc]; rfl, ?_⟩
       exact SSeg_upd_notin _ _ (by simpa [idsOf] using hf) hseg0
@@ -295,7 +296,7 @@ theorem addAt_spec (s : St) (l : Hdr) (cs : List Cell) (x i : Nat) (m : Mem)
       have := (SSeg_append.1 t1).2
       rw [SSeg_cons] at this; exact this.1
     simp only [hq, reduceCtorEq, if_false, nextOf, Option.bind_some, nd_of hbnode, optSetNext]
-    refine ⟨by first | trivial | rfl, by first | trivial | rfl, ⟨hnd', ?_, by simp [r.size]; omega, ?_, ?_⟩, rfl, Nat.le_succ _, hbound, ?_⟩
+    refine ⟨by first | trivial | rfl, by first | trivial | rfl, ⟨hnd', ?_, by simp [r.size]; omega, ?_, ?_⟩, rfl, Nat.le_succ _, hbound, ?_, (by intro a' ha' hna'; exact absurd (by simp only [idsOf_append, idsOf_cons, idsOf_nil, List.mem_append, List.mem_cons, List.not_mem_nil, or_false, false_or] at ha' ⊢; first | exact Or.inl ha' | exact Or.inr ha' | (rcases ha' with h | h | h <;> simp [h]) | (rcases ha' with h | h <;> simp [h]) | simp [ha']) hna')⟩
     · rw [SSeg_append, SSeg_cons]
       refine ⟨?_, ?_, ?_⟩
       · simp only [nxt_cons]
@@ -324,10 +325,11 @@ theorem unlinkAllLoop_spec : ∀ (cs : List Cell) (k : Nat) (s : St) (l : Hdr) (
     (unlinkAllLoop k s l (nxt cs none) log m).2.2.1 = log ++ dataOf cs ∧
     (unlinkAllLoop k s l (nxt cs none) log m).2.2.2 = Mem.freeN l.triple cs.length m ∧
     (unlinkAllLoop k s l (nxt cs none) log m).1.fresh = s.fresh ∧
-    (∀ b, b ∉ idsOf cs → (unlinkAllLoop k s l (nxt cs none) log m).1.heap b = s.heap b)
+    (∀ b, b ∉ idsOf cs → (unlinkAllLoop k s l (nxt cs none) log m).1.heap b = s.heap b) ∧
+    (∀ a, a ∈ idsOf cs → (unlinkAllLoop k s l (nxt cs none) log m).1.heap a = none)
   | [], k, s, l, log, m, _, _, _ => by
     have : unlinkAllLoop k s l (nxt [] none) log m = (s, l, log, m) := by cases k <;> rfl
-    rw [this]; exact ⟨by simp, by simp, rfl, rfl, fun _ _ => rfl⟩
+    rw [this]; exact ⟨by simp, by simp, rfl, rfl, fun _ _ => rfl, fun _ h => by simp [idsOf] at h⟩
   | a :: rest, 0, _, _, _, _, _, _, hk => by simp at hk
   | a :: rest, k + 1, s, l, log, m, hs, hn, hk => by
     rw [SSeg_cons] at hs
@@ -335,14 +337,21 @@ theorem unlinkAllLoop_spec : ∀ (cs : List Cell) (k : Nat) (s : St) (l : Hdr) (
     simp only [nxt_cons, unlinkAllLoop, nd_of hs.1]
     have ih := unlinkAllLoop_spec rest k (s.free a.1) { l with size := l.size - 1 } (log ++ [a.2]) (m.freeT l.triple)
       (SSeg_frame (fun b hb => free_ne s a.1 b (fun e => hn.1 (by rw [← e]; exact hb))) hs.2) hn.2 (by simpa using hk)
-    obtain ⟨i1, i2, i3, i4, i5⟩ := ih
-    refine ⟨?_, ?_, ?_, i4, ?_⟩
+    obtain ⟨i1, i2, i3, i4, i5, i6⟩ := ih
+    refine ⟨?_, ?_, ?_, i4, ?_, ?_⟩
     · rw [i1]; simp only [List.length_cons]; congr 1; omega
     · rw [i2]; simp
     · rw [i3]; rfl
     · intro b hb
       simp only [idsOf_cons, List.mem_cons, not_or] at hb
       rw [i5 b hb.2]; exact free_ne s a.1 b hb.1
+    · intro a' ha'
+      simp only [idsOf_cons, List.mem_cons] at ha'
+      by_cases hr : a' ∈ idsOf rest
+      · exact i6 a' hr
+      · have e : a' = a.1 := by rcases ha' with h | h; exact h; exact absurd h hr
+        subst e
+        rw [i5 a.1 hn.1]; exact free_eq s a.1
 
 /-- **`cc_slist_remove_all`** / **`cc_slist_remove_all_cb`** -/
 theorem removeAll_spec (s : St) (l : Hdr) (cs : List Cell) (m : Mem)
@@ -356,8 +365,8 @@ theorem removeAll_spec (s : St) (l : Hdr) (cs : List Cell) (m : Mem)
   have hs : l.size ≠ 0 := by rw [r.size]; exact fun e => hne (List.eq_nil_of_length_eq_zero e)
   simp only [hs, if_false, if_true]
   rw [r.head, r.size]
-  obtain ⟨i1, i2, i3, i4, i5⟩ := unlinkAllLoop_spec cs cs.length s l [] m r.seg r.nodup (Nat.le_refl _)
-  refine ⟨by first | trivial | rfl, by rw [i2]; simp, i3, ⟨⟨by simp [idsOf], trivial, ?_, rfl, rfl⟩, ?_, ?_, by simp [idsOf], fun b hb _ => i5 b hb⟩⟩
+  obtain ⟨i1, i2, i3, i4, i5, i6⟩ := unlinkAllLoop_spec cs cs.length s l [] m r.seg r.nodup (Nat.le_refl _)
+  refine ⟨by first | trivial | rfl, by rw [i2]; simp, i3, ⟨⟨by simp [idsOf], trivial, ?_, rfl, rfl⟩, ?_, ?_, by simp [idsOf], fun b hb _ => i5 b hb, fun a ha _ => i6 a ha⟩⟩
   · simp only []; rw [i1, r.size]; simp
   · simp only []; rw [i1]
   · rw [i4]; exact Nat.le_refl _
@@ -366,13 +375,14 @@ theorem removeAll_spec (s : St) (l : Hdr) (cs : List Cell) (m : Mem)
 theorem destroy_spec (s : St) (l : Hdr) (cs : List Cell) (m : Mem)
     (r : SRepr s.heap l cs) (hb : ∀ x, x ∈ idsOf cs → x < s.fresh) :
     (destroy s l m).1 = dataOf cs ∧ (destroy s l m).2.2 = (Mem.freeN l.triple cs.length m).freeT l.triple ∧
-    (destroy s l m).2.1.fresh = s.fresh ∧ (∀ b, b ∉ idsOf cs → b < s.fresh → (destroy s l m).2.1.heap b = s.heap b) := by
+    (destroy s l m).2.1.fresh = s.fresh ∧ (∀ b, b ∉ idsOf cs → b < s.fresh → (destroy s l m).2.1.heap b = s.heap b) ∧
+    (∀ a, a ∈ idsOf cs → (destroy s l m).2.1.heap a = none) := by
   obtain ⟨re, rs⟩ := removeAll_spec s l cs m r hb
   unfold destroy
   by_cases hc : cs = []
-  · rw [re hc]; subst hc; simp [Mem.freeN]
+  · rw [re hc]; subst hc; simp [Mem.freeN, idsOf]
   · obtain ⟨_, h2, h3, k⟩ := rs hc
-    refine ⟨h2, by show ((removeAll s l m).2.2.2.2).freeT l.triple = _; rw [h3], ?_, k.frame⟩
+    refine ⟨h2, by show ((removeAll s l m).2.2.2.2).freeT l.triple = _; rw [h3], ?_, k.frame, fun a ha => k.dead a ha (by simp [idsOf])⟩
     have := unlinkAllLoop_spec cs cs.length s l [] m r.seg r.nodup (Nat.le_refl _)
     unfold removeAll unlinknAll
     have hs : l.size ≠ 0 := by rw [r.size]; exact fun e => hc (List.eq_nil_of_length_eq_zero e)
@@ -448,7 +458,7 @@ theorem filterMutLoop_spec (pr : Nat → Bool) : ∀ (rest kept : List Cell) (k 
   | [], kept, k, s, l, m, r, hb, _ => by
     simp only [show nxt ([] : List Cell) none = none from rfl, filterMutLoop_none, List.filter_nil, List.length_nil,
       Nat.sub_self, Mem.freeN]
-    exact ⟨by first | trivial | rfl, r, rfl, Nat.le_refl _, hb, fun _ _ _ => rfl⟩
+    exact ⟨by first | trivial | rfl, r, rfl, Nat.le_refl _, hb, fun _ _ _ => rfl, fun a ha hna => absurd (by simpa using ha) hna⟩
   | a :: rest, kept, 0, s, l, m, _, _, hk => by simp at hk
   | a :: rest, kept, k + 1, s, l, m, r, hb, hk => by
     obtain ⟨_, ha, _⟩ := SSeg_split r.seg
@@ -471,7 +481,12 @@ theorem filterMutLoop_spec (pr : Nat → Bool) : ∀ (rest kept : List Cell) (k 
       obtain ⟨i1, i2⟩ := filterMutLoop_spec pr rest kept k (unlinkn s l a.1 (lastOr kept none) m).2.1
         (unlinkn s l a.1 (lastOr kept none) m).2.2.1 (unlinkn s l a.1 (lastOr kept none) m).2.2.2 uk.repr uk.bound hk'
       simp only [hp', Bool.not_false, if_true, List.filter_cons, Bool.false_eq_true, if_false, List.length_cons]
-      refine ⟨?_, i2.repr, i2.triple.trans uk.triple, Nat.le_trans uk.mono i2.mono, i2.bound, fun b hb1 hb2 => ?_⟩
+      refine ⟨?_, i2.repr, i2.triple.trans uk.triple, Nat.le_trans uk.mono i2.mono, i2.bound, fun b hb1 hb2 => ?_, fun a' ha' hna' => ?_⟩
+      rotate_right
+      · by_cases hm : a' ∈ idsOf (kept ++ rest)
+        · exact i2.dead a' hm hna'
+        · rw [i2.frame a' hm (Nat.lt_of_lt_of_le (hb a' ha') uk.mono)]
+          exact uk.dead a' ha' hm
       · rw [i1, u2, uk.triple]
         have : rest.length + 1 - (rest.filter (fun c => pr c.2)).length =
             (rest.length - (rest.filter (fun c => pr c.2)).length) + 1 := by omega
